@@ -23,10 +23,39 @@ def bswap_of(e):
     return None
 
 
+def cfg_order(fn):
+    """position of every block in an order that follows control flow: a loop's body before what follows the loop (reverse postorder
+    of a walk that takes the edges leaving a loop first); source lines do not do once helpers are inlined"""
+    loops = fn.loops()
+
+    def inner(b):
+        c = [body for body in loops.values() if b in body]
+        return min(c, key=len) if c else None
+    seen, post = set(), []
+
+    def succs(b):
+        L = inner(b)
+        ss = list(fn.blocks[b].succs)
+        return sorted(ss, key=lambda x: (L is not None and x in L))
+    st = [(0, iter(succs(0)))]
+    seen.add(0)
+    while st:
+        b, it = st[-1]
+        nx = next((x for x in it if x not in seen), None)
+        if nx is None:
+            post.append(b)
+            st.pop()
+        else:
+            seen.add(nx)
+            st.append((nx, iter(succs(nx))))
+    return {b: k for k, b in enumerate(reversed(post))}
+
+
 def stream_writes(pdb, fn, align_type):
     """ordered list of writes of align_byte_sequence: (region, what, length, conversion) for the given align type"""
     out = []
-    for c in sorted(fn.calls("write_stream"), key=lambda c: (c.line, c.id)):
+    pos = cfg_order(fn)
+    for c in sorted(fn.calls("write_stream"), key=lambda c: (pos.get(c.block.id, 1 << 30), c.block.insts.index(c))):
         src = vf.expr(fn, c.args[1])
         ln = vf.expr(fn, c.args[2])
         conv = None
@@ -191,8 +220,10 @@ def validation_shape(pdb):
     for i in f.all_insts():
         if i.op == "add":
             kk, tt = flat(vf.expr(f, i.ref))
-            if SKI <= kk <= SKI + 2 + PATHSEG + 8 and len(tt) == 1 and tt[0][0] == "phi":
-                return      # the advance is there; whether its constant is right is C11.R4's question
+            if SKI <= kk <= SKI + 2 + PATHSEG + 8 and len(tt) == 1 and tt[0][0] == "phi" and \
+                    any(v[0] == "load" and vf.last_field(v[1]) == "rtr_signature_seg.sig_len"
+                        for v in (vf.expr(f, x) for x, b in f.insts[tt[0][1]]["inc"])):
+                return      # the advance (a chosen signature length + constant) is there; whether constant and choice are right is C11.R4's question
             if kk == SKI + 2 + PATHSEG and len(tt) == 1 and tt[0][0] == "load" and vf.last_field(tt[0][1]) == "rtr_signature_seg.sig_len" and \
                     vf.root_of(tt[0][1])[0] == "phi" and not f.calls("sig_seg_size"):
                 return      # same loop, the length read from a segment directly
@@ -256,6 +287,24 @@ def r4(ctx, rule):
                 offs.append((i, tt[0]))
     good = False
     det = "per-hop offset expression not found"
+
+    def is_next_len(v):
+        return v[0] == "load" and vf.last_field(v[1]) == "rtr_signature_seg.sig_len" and v[1][1][0] == "load" and vf.last_field(v[1][1][1]) == "rtr_signature_seg.next"
+    direct = []
+    for i in f.all_insts():
+        if i.op == "add":
+            kk, tt = flat(vf.expr(f, i.ref))
+            if kk == SKI + 2 + PATHSEG and len(tt) == 1 and tt[0][0] == "load" and vf.last_field(tt[0][1]) == "rtr_signature_seg.sig_len":
+                direct.append((i, tt[0]))
+    if direct and not offs:
+        # the length is read from a segment where it is added, not chosen beforehand
+        def last_only(i, t):      # the segment's own length only where there is no next segment (the step after the last signature)
+            nx = ("load", ("fld", t[1][1], "rtr_signature_seg.next")) if t[1][0] == "fld" else None
+            return nx is not None and es.Guards(f, i).zero(nx)
+        good = any(is_next_len(t) for i, t in direct) and all(is_next_len(t) or last_only(i, t) for i, t in direct)
+        det = "offset advances by %s + 28" % [vf.show(t) for i, t in direct]
+        ctx.check(good, rule, "per-hop-offset", direct[0][0].loc(), det, key="%s:next-offset" % rule)
+        return
     if offs:
         i, ph_e = offs[0]
         ph = f.insts[ph_e[1]]
